@@ -92,6 +92,10 @@ func allocFamilies() []allocFamily {
 		{"HandleObjectValues/skipping-handler", func(w []byte) bool { _, err := rjson.HandleObjectValues(w, c19SkipO, &c19Buf); return err == nil }, warmBufs, func(w []byte) bool { return firstByte(w) == '{' }},
 		{"ReadStringBytes", func(w []byte) bool { _, _, err := rjson.ReadStringBytes(w, c19Dst[:0]); return err == nil }, nil, func(w []byte) bool { return firstByte(w) == '"' }},
 		{"UnescapeStringContent", func(w []byte) bool { _, _, err := rjson.UnescapeStringContent(w, c19Dst[:0]); return err == nil }, nil, nil},
+		// the property's minimal precondition: spare capacity of exactly the input length
+		{"ReadStringBytes/spare=len(input)", func(w []byte) bool { _, _, err := rjson.ReadStringBytes(w, c19Dst[:0:len(w)]); return err == nil }, nil, func(w []byte) bool { return firstByte(w) == '"' }},
+		{"ReadStringBytes/prefix+spare=len(input)", func(w []byte) bool { _, _, err := rjson.ReadStringBytes(w, c19Dst[:7:7+len(w)]); return err == nil }, nil, func(w []byte) bool { return firstByte(w) == '"' }},
+		{"UnescapeStringContent/spare=len(input)", func(w []byte) bool { _, _, err := rjson.UnescapeStringContent(w, c19Dst[:0:len(w)]); return err == nil }, nil, nil},
 		{"ReadFloat64", func(w []byte) bool { _, _, err := rjson.ReadFloat64(w); return err == nil }, nil, isNum},
 		{"DecodeFloat64", func(w []byte) bool { _, err := rjson.DecodeFloat64(w, &c19F); return err == nil }, nil, nil},
 		{"ReadInt64", func(w []byte) bool { _, _, err := rjson.ReadInt64(w); return err == nil }, nil, isNum},
@@ -201,6 +205,15 @@ func c19(r *eng.Run) {
 		strings.Repeat(" ", 2000) + "1",
 	} {
 		add([]byte(t))
+	}
+	// strings: one escape of each kind at every position of plain runs of several lengths
+	for _, L := range []int{1, 7, 8, 15, 16, 40, 64} {
+		for pos := 0; pos <= L; pos += 1 + L/16 {
+			for _, e := range []string{"\\" + "n", U("0041"), U("00e9"), U("d83d") + U("de00"), U("d800"), "\\" + `"`} {
+				add([]byte(`"` + strings.Repeat("x", pos) + e + strings.Repeat("y", L-pos) + `"`))
+				add([]byte(strings.Repeat("x", pos) + e + strings.Repeat("y", L-pos)))
+			}
+		}
 	}
 	// float literals: every conversion path (exact, Eisel-Lemire, multiprecision fallback with
 	// short and >800-digit inputs), every table row
